@@ -112,9 +112,12 @@ TLC_TRANSIENT = ("StatePoolReader", "when reading pool file", "StatePoolWriter",
 
 
 def tlc(*args, **kw):
-    """TLC with one retry on its own transient disk-queue errors (seen once under heavy I/O load: 'Error: when reading
-    pool file N (StatePoolReader.run) ... No such file or directory' -- a race inside TLC's disk-backed state queue, not a
-    result about the model); everything else is passed through unchanged."""
+    """TLC, run again (at most twice) when its disk-backed state queue lost a file underneath it ('Error: when reading pool
+    file N (StatePoolReader.run) ... No such file or directory'). Seen when a development copy of this framework lived under
+    /tmp while the repository's own record-store tests ran there: those tests root a store at the system temp dir, and the
+    store's start-up scan deletes every hex-named file it cannot decrypt below its root -- TLC's pool files are called 10, 11, ...
+    /verif/work is not under /tmp; the retry only keeps such an outside interference from ending a check as a tool error.
+    Everything else is passed through unchanged."""
     for attempt in (1, 2, 3):
         try:
             return _tlc_once(*args, **kw)
